@@ -344,6 +344,10 @@ func genProgram(r *rand.Rand, c genCfg) caseInput {
 	switch {
 	case c.Ret && end < 2:
 		e.emit("ret")
+		if e.r.Intn(2) == 0 {
+			// program text after the return (never executed): fetch and decode keep running into it
+			e.body(2+e.r.Intn(8), 3, false)
+		}
 	case c.EndLabel && end == 2:
 		// conditional or unconditional transfer to a label placed after the last instruction
 		l := e.newLabel()
